@@ -158,5 +158,5 @@ def unit(root='/repo'):
     items.append(utils_group(root))
     items.append(Group('impl RealInode {', real_fns(root)))
     u = Unit('ovl_real', items, preludes=['base.rs', 'stdmodel.rs'], generic_tags=C.GENERIC_TAGS, notes='; '.join(notes))
-    u.prelude_subst = [('use std::collections::HashMap;', '')]
+    u.prelude_subst = [C.LIBC_EXTRA, C.NO_STD_HASHMAP]
     return u
